@@ -132,14 +132,17 @@ Section FrameTheorem.
     - (* EValue *)
       repeat split; apply Fr_refl.
     - (* EOption *)
-      apply andb_prop in Hf as [Hd Hdom]. destruct dom; [discriminate|].
+      apply andb_prop in Hf as [Hd Hdom].
       assert (HD : FrOpt dflt) by (destruct dflt; [apply H; exact Hd|exact I]).
-      assert (Hev : Fr o o' (option_eval unit u fuel (fun x => evalN x o) k dflt None o)
-                           (option_eval unit u fuel (fun x => evalN x o') k dflt None o')).
+      assert (HM : FrOpt dom) by (destruct dom; [apply H0; exact Hdom|exact I]).
+      assert (Hev : Fr o o' (option_eval unit u fuel (fun x => evalN x o) k dflt dom o)
+                           (option_eval unit u fuel (fun x => evalN x o') k dflt dom o')).
       { unfold option_eval. apply Fr_bind; [apply Fr_rd|]. intros r.
-        apply Fr_bind; [|intros; apply Fr_refl].
-        destruct r as [raw| |]; [apply Fr_resolved| |apply Fr_refl].
-        destruct dflt as [d|]; [|apply Fr_refl]. apply (HD o o' Hw Hw'). }
+        apply Fr_bind.
+        - destruct r as [raw| |]; [apply Fr_resolved| |apply Fr_refl].
+          destruct dflt as [d|]; [|apply Fr_refl]. apply (HD o o' Hw Hw').
+        - intros v. destruct dom as [de|]; [|apply Fr_refl].
+          apply Fr_bind; [apply (HM o o' Hw Hw')|]. intros; apply Fr_refl. }
       repeat split.
       + unf eval_EOption. apply Fr_wrap. exact Hev.
       + unf validate_EOption. apply Fr_bind; [apply Fr_rd|]. intros r.
